@@ -18,6 +18,7 @@ Theorem C06_struct_registers : forall ty size, 0 < size <= 16 ->
   let fp := (b2n (sse 0%Z) + b2n ((8 <? size)%Z && sse 1%Z))%nat in
   (((if (8 <? size)%Z then 2 else 1) - fp)%nat, fp).
 Proof. exact count_struct_regs_class. Qed.
+Print Assumptions C06_struct_registers.
 
 (* for every argument list - any number and order of INTEGER, SSE, X87 (long double), small
    aggregate with any register needs and MEMORY arguments - the three places that decide where
@@ -44,3 +45,4 @@ Example C06_nonvacuous :
   count_struct_regs (AAgg [(0, ASc false); (8, ASc true)]) 16 = (1%nat, 1%nat) /\
   count_struct_regs (AAgg [(0, ASc true); (4, ASc true)]) 8 = (0%nat, 1%nat).
 Proof. vm_compute. repeat split; reflexivity. Qed.
+Print Assumptions C06_nonvacuous.
